@@ -11,6 +11,7 @@ Binding: TLC-simulated behaviours (ApplyBlock / RevertHead, forks) are replayed 
 blockchain.Blockchain nodes on both state backends; after EVERY step every query is issued through
 HeadState / StateAtBlockNumber / StateAtBlockHash and compared with the model's TrueState.
 """
+import copy
 import json
 import os
 import re
@@ -44,6 +45,31 @@ def behaviours(ctx, cfg, runs, depth, fix, base):
     return out
 
 
+def selftest(ctx, binary, test, bs, corrupt):
+    """Binding self-test: one expected value of one behaviour is falsified; the engine must object."""
+    for b in bs:
+        c = copy.deepcopy(b)
+        if corrupt(c):
+            res = ctx.run_engine(binary, test, {"behaviours": [c], "backends": ["new"]})
+            if not res.get("divergences"):
+                raise vlib.Broken("binding self-test: %s accepted a behaviour with a falsified expectation" % test)
+            ctx.coverage["selftest"] = "falsified expectation rejected (%s)" % res["divergences"][0]["key"]
+            return
+    raise vlib.Broken("binding self-test: no behaviour to falsify")
+
+
+def corrupt_truth(b):
+    """Bump the nonce the model expects for a deployed contract at the head of the last step."""
+    st = b["steps"][-1]
+    if st["res"] != "ok" or not st["truth"]:
+        return False
+    for c, ct in sorted(st["truth"][-1]["con"].items()):
+        if ct["dep"]:
+            ct["nonce"] += 1
+            return True
+    return False
+
+
 def run(ctx):
     binary = ctx.build_engine("statehist")
     if ctx.replay:
@@ -65,6 +91,7 @@ def run(ctx):
 
     fix = h4_fixed()
     bs = behaviours(ctx, "StateHistory_sim.cfg", 10 if thorough else 2, 17 * (150 if thorough else 70), fix, 0)
+    selftest(ctx, binary, "TestHistReplay", bs, corrupt_truth)
     res = ctx.run_engine(binary, "TestHistReplay", {"behaviours": bs}, timeout=3000)
     ctx.absorb(res, "statehist", "TestHistReplay")
     ctx.coverage["behaviours_generated"] = len(bs)
